@@ -143,15 +143,16 @@ def check(x):
     for e in log:
         if e["kind"] == "ret" and e["op"].startswith("cancel:") and e["val"] is True:
             cancel_true[int(e["op"].split(":")[1])] = e["seq"]
-    first_resolution = {}   # r -> seq at which F was resolved (yield / raising poll / true cancel)
+    first_resolution = {}   # r -> seq at which F's *resolving call* returned
     for e in yields:
         first_resolution.setdefault(e["r"], e["seq"])
     for e in raises:
         for r in e["shown"]:
             first_resolution.setdefault(r, e["seq"])
     for j, s in cancel_true.items():
-        r = "r%d" % j
-        first_resolution[r] = min(first_resolution.get(r, s), s)
+        # the future ended cancelled: its resolving call is that cancel() (a yield made while the
+        # cancel was in progress resolved nothing), and it counts from the moment it returned
+        first_resolution["r%d" % j] = s
     prev_end = 0
     for b in begins:
         # the library takes its snapshot somewhere between the end of the previous call and the
